@@ -98,6 +98,8 @@ pub struct RefRun {
     pub halted_on_rw: Option<bool>,
     pub events: BTreeSet<&'static str>,
     pub calls: usize,
+    /// (address of the loop/repeat statement, value its bound evaluated to), in evaluation order
+    pub bound_evals: Vec<(usize, i64)>,
 }
 
 pub fn mask(n: i64, bits: usize) -> i64 {
@@ -431,6 +433,9 @@ struct Interp<'a> {
     calls: usize,
     draws: usize,
     depth: usize,
+    /// carry on after an error item whose driver call was made (driver fault, virtual signal)
+    cont: bool,
+    bound_evals: Vec<(usize, i64)>,
 }
 
 fn number_rows(stmts: &[Stmt], next: &mut usize, map: &mut HashMap<*const Stmt, usize>) {
@@ -636,6 +641,7 @@ impl<'a> Interp<'a> {
             }
             Stmt::Loop(v, e, body) => {
                 let n = self.ev(e)?;
+                self.bound_evals.push((s as *const Stmt as usize, n));
                 if !matches!(e, Expr::Lit(..)) {
                     self.events.insert("loop_bound_computed");
                 }
@@ -643,6 +649,7 @@ impl<'a> Interp<'a> {
             }
             Stmt::Repeat(e, es) => {
                 let n = self.ev(e)?;
+                self.bound_evals.push((s as *const Stmt as usize, n));
                 let id = self.node_ids[&(s as *const Stmt)];
                 self.events.insert("repeat");
                 self.run_loop("n", n, |me| me.do_row(id, es))
@@ -762,7 +769,7 @@ impl<'a> Interp<'a> {
                 EnvW::Ok => {}
                 EnvW::Fault(id) => {
                     self.items.push(RefItem::DriverErr(id));
-                    return Err(Stop::Err);
+                    return if self.cont { Ok(()) } else { Err(Stop::Err) };
                 }
                 EnvW::Halt => {
                     self.calls -= 1;
@@ -778,7 +785,7 @@ impl<'a> Interp<'a> {
             EnvRw::Ans(a) => a,
             EnvRw::Fault(id) => {
                 self.items.push(RefItem::DriverErr(id));
-                return Err(Stop::Err);
+                return if self.cont { Ok(()) } else { Err(Stop::Err) };
             }
             EnvRw::Halt => {
                 self.calls -= 1;
@@ -803,7 +810,7 @@ impl<'a> Interp<'a> {
                         Ok(v) => (n, 64, V::Num(v)),
                         Err(Some(err)) => {
                             self.items.push(RefItem::VirtErr(err));
-                            return Err(Stop::Err);
+                            return if self.cont { Ok(()) } else { Err(Stop::Err) };
                         }
                         Err(None) => {
                             self.make_key(sub);
@@ -830,6 +837,12 @@ impl<'a> Interp<'a> {
 
 /// Run the reference interpreter. The program must be accepted by `bind_judgement`.
 pub fn run(p: &Program, signals: &[Sig], env: &mut dyn Env, fuel: Fuel) -> RefRun {
+    run_opts(p, signals, env, fuel, false)
+}
+
+/// `cont`: carry on after an error item whose driver call was made (what a caller sees who
+/// does not stop at the first error item).
+pub fn run_opts(p: &Program, signals: &[Sig], env: &mut dyn Env, fuel: Fuel, cont: bool) -> RefRun {
     let declares = p.declares();
     let bound = bind(&p.header, signals, &declares);
     let init_inputs: Vec<(String, V)> =
@@ -846,6 +859,7 @@ pub fn run(p: &Program, signals: &[Sig], env: &mut dyn Env, fuel: Fuel) -> RefRu
         halted_on_rw: None,
         events: BTreeSet::new(),
         calls: 1,
+        bound_evals: vec![],
     };
     let latest = match env.rw(&init_inputs) {
         EnvRw::Ans(a) => a,
@@ -888,6 +902,8 @@ pub fn run(p: &Program, signals: &[Sig], env: &mut dyn Env, fuel: Fuel) -> RefRu
         calls: 1,
         draws: 0,
         depth: 0,
+        cont,
+        bound_evals: vec![],
     };
     let r = it.exec(&p.body);
     run.end = match r {
@@ -904,6 +920,7 @@ pub fn run(p: &Program, signals: &[Sig], env: &mut dyn Env, fuel: Fuel) -> RefRu
     run.halted_on_rw = it.halted_on_rw;
     run.events = it.events;
     run.calls = it.calls;
+    run.bound_evals = it.bound_evals;
     run
 }
 
